@@ -114,8 +114,8 @@ var Projections = map[string]*Projection{
 	"C11": {Wire: true, Recv: map[string]fieldSet{"*": kinds, "ssl": fs("b"), "R": fs("code")},
 		Cb: map[string]fieldSet{"*": fs("q", "def")}},
 	// isolation: everything a connection sees and everything its callbacks see, except row payload encodings
-	"C15": {Recv: map[string]fieldSet{"*": kinds, "S": fs("key", "val"), "T": fs("n", "names", "oids"), "D": fs("n", "cells"), "C": fs("tag"), "R": fs("code")},
-		Cb: map[string]fieldSet{"*": fs("q", "def", "si", "params", "ret", "written", "cp", "sp", "mw", "i", "intact")}},
+	"C15": {Recv: map[string]fieldSet{"*": kinds, "S": fs("key", "val"), "T": fs("n", "names", "oids", "tables", "attrs"), "D": fs("n", "cells"), "C": fs("tag"), "R": fs("code")},
+		Cb: map[string]fieldSet{"*": fs("q", "def", "si", "params", "ret", "written", "cp", "sp", "mw", "i", "intact", "db", "user", "pw")}},
 	// robustness: reply kinds, which callbacks ran, allocation per hostile message
 	"C04": {Alloc: true, Recv: map[string]fieldSet{"*": kinds, "R": fs("code"), "ssl": fs("b")},
 		Cb: map[string]fieldSet{"*": fs("q", "def", "ret")}},
